@@ -2228,6 +2228,7 @@ func runTokenERC20(run *ev.Run, c int) {
 	// odd cases: the genesis already holds a token bound to an ERC20 contract, its address written in lower case (genesis
 	// validation accepts any hex spelling); the harness EVM adopts a contract at that address in the first block
 	const gbContract = "0xabcdef0123456789abcdef0123456789abcdef01"
+	const gbContract2 = "0xabcdef0123456789abcdef0123456789abcdef02"
 	genesisBorn := c%2 == 1
 	var mut func(cdc codec.Codec, gs map[string]json.RawMessage)
 	if genesisBorn {
@@ -2243,10 +2244,12 @@ func runTokenERC20(run *ev.Run, c int) {
 			var st v1.GenesisState
 			cdc.MustUnmarshalJSON(gs[tokentypes.ModuleName], &st)
 			st.Tokens = append(st.Tokens, v1.Token{Symbol: "gborn", Name: "genesis born", Scale: 6, MinUnit: "ugborn", InitialSupply: 1000000, MaxSupply: 1000000000, Mintable: true, Owner: owner, Contract: gbContract})
+			// ... and a token nobody owns (genesis validation accepts an empty owner), bound to a contract as well
+			st.Tokens = append(st.Tokens, v1.Token{Symbol: "gnobody", Name: "genesis born, ownerless", Scale: 3, MinUnit: "ugnobody", InitialSupply: 500000, MaxSupply: 1000000000, Mintable: false, Owner: "", Contract: gbContract2})
 			gs[tokentypes.ModuleName] = cdc.MustMarshalJSON(&st)
 			var bg banktypes.GenesisState
 			cdc.MustUnmarshalJSON(gs[banktypes.ModuleName], &bg)
-			coins := sdk.NewCoins(sdk.NewCoin("ugborn", sdkmath.NewInt(1000000).MulRaw(1000000)))
+			coins := sdk.NewCoins(sdk.NewCoin("ugborn", sdkmath.NewInt(1000000).MulRaw(1000000)), sdk.NewCoin("ugnobody", sdkmath.NewInt(500000).MulRaw(1000)))
 			for i := range bg.Balances {
 				if bg.Balances[i].Address == owner {
 					bg.Balances[i].Coins = bg.Balances[i].Coins.Add(coins...)
@@ -2267,6 +2270,8 @@ func runTokenERC20(run *ev.Run, c int) {
 		r.Ops["tk-evm-adopt"] = func(ctx sdk.Context, raw json.RawMessage) error {
 			bz, _ := json.Marshal(tkContractMeta{Name: "genesis born", Symbol: "gborn", Scale: 6, Owner: common.BytesToAddress(authtypes.NewModuleAddress(tokentypes.ModuleName)).Hex()})
 			ctx.KVStore(evm.key).Set(tkKeyMeta(common.HexToAddress(gbContract)), bz)
+			bz2, _ := json.Marshal(tkContractMeta{Name: "genesis born, ownerless", Symbol: "gnobody", Scale: 3, Owner: common.BytesToAddress(authtypes.NewModuleAddress(tokentypes.ModuleName)).Hex()})
+			ctx.KVStore(evm.key).Set(tkKeyMeta(common.HexToAddress(gbContract2)), bz2)
 			return nil
 		}
 		if br := r.DeliverBlock(time.Second, []rig.Tx{r.InjectOp(r.Acc(1), &tkTag{Kind: "setup"}, "tk-evm-adopt", map[string]string{})}); br.FinalErr != nil || len(br.Txs) != 1 || !br.Txs[0].OK() {
